@@ -452,12 +452,15 @@ static int resolver_raw_srv_lookup_buf(xmpp_ctx_t *ctx,
         if (name_len == 0)
             return XMPP_DOMAIN_NOT_FOUND;
         j += name_len;
-        BUF_OVERFLOW_CHECK(j + 16, len);
+        /* type, class, ttl and rdlength */
+        BUF_OVERFLOW_CHECK(j + 9, len);
         type = xmpp_ntohs_ptr(&buf[j]);
         class = xmpp_ntohs_ptr(&buf[j + 2]);
         rdlength = xmpp_ntohs_ptr(&buf[j + 8]);
         j += 10;
         if (type == MESSAGE_T_SRV && class == MESSAGE_C_IN) {
+            /* priority, weight, port and the first octet of the target */
+            BUF_OVERFLOW_CHECK(j + 6, len);
             rr = resolver_srv_rr_new(ctx, NULL, 0, 0, 0);
             if (rr) {
                 rr->next = *srv_rr_list;
